@@ -83,6 +83,19 @@ def scheme_tables(prog: Program) -> Dict[str, Tuple[FuncInfo, Dict[str, int]]]:
         if mapping_fn is None:
             raise AnalysisError(f"{cls_name}.get_scheme_mapping missing")
         rets = returns_of(mapping_fn)
+        if len(rets) == 1 and isinstance(rets[0], ast.Attribute):  # a class-level constant table
+            owner_cls = scheme_cls
+            attr = rets[0].attr
+            if attr.startswith("_") and "__" in attr[1:] and not attr.startswith("__"):
+                attr = attr[attr.index("__", 1):]
+            constant = next((klass.class_attrs[attr] for klass in owner_cls.mro if attr in klass.class_attrs), None)
+            if isinstance(constant, ast.Dict):
+                rets = [constant]
+        elif len(rets) == 1 and isinstance(rets[0], ast.Name):  # a local holding the literal
+            values = [n.value for n in walk_local(mapping_fn.node) if isinstance(n, (ast.Assign, ast.AnnAssign)) and getattr(n, "value", None) is not None
+                      and any(isinstance(t, ast.Name) and t.id == rets[0].id for t in (n.targets if isinstance(n, ast.Assign) else [n.target]))]
+            if len(values) == 1 and isinstance(values[0], ast.Dict):
+                rets = [values[0]]
         if len(rets) != 1 or not isinstance(rets[0], ast.Dict):
             raise AnalysisError(f"{cls_name}.get_scheme_mapping does not return one dict literal")
         mapping: Dict[str, int] = {}
@@ -350,43 +363,63 @@ def r18c(ctx: Context) -> None:
         raise AnalysisError("chain function does not unpack the two flags of process_files_to_scan")
     if not returns_of(chain):
         raise AnalysisError("chain function does not return a result")
-    cfg = CFG(chain.node, raising=lambda n: False)
     from sa.util import enumerate_paths
 
+    def verdicts(func: FuncInfo, roles: Dict[str, str], need_driver: bool, depth: int = 0):
+        """(facts established on a path, result of that path, description) for every path of ``func``; a result that
+        is computed by a helper of the same class is followed into the helper with the flags mapped to its parameters"""
+        cfg = CFG(func.node, raising=lambda n: False)
+        for path in enumerate_paths(cfg, loop_bound=1):
+            if path[-1][0] != cfg.exit:
+                continue
+            facts: Dict[str, bool] = {}
+            result_expr: Optional[ast.AST] = None
+            bound: Dict[str, ast.AST] = {}
+            driver_called = False
+            for nid, label in path:
+                node = cfg.nodes[nid]
+                if node.kind == "cond" and node.ast_node is not None:
+                    text = norm(node.ast_node)
+                    role = roles.get(text)
+                    if role:
+                        facts[role] = label == "true"
+                    elif "number_of_scan_failures" in text:
+                        facts["triggered"] = label == "true"
+                    else:
+                        facts[text] = label == "true"
+                elif node.kind == "stmt" and isinstance(node.ast_node, ast.Assign):
+                    stmt = node.ast_node
+                    for target in stmt.targets:
+                        if isinstance(target, ast.Name):
+                            bound[target.id] = bound.get(stmt.value.id, stmt.value) if isinstance(stmt.value, ast.Name) else stmt.value
+                    if isinstance(stmt.value, ast.Call):
+                        site = site_for(prog, func, stmt.value)
+                        if site and driver in site.targets:
+                            driver_called = True
+                elif node.kind == "stmt" and isinstance(node.ast_node, ast.Return) and node.ast_node.value is not None:
+                    value = node.ast_node.value
+                    result_expr = bound.get(value.id, value) if isinstance(value, ast.Name) else value
+            if need_driver and not driver_called:
+                continue
+            described = [cfg.describe(n) for n, _ in path if cfg.nodes[n].kind in ("cond",)]
+            helper_site = site_for(prog, func, result_expr) if isinstance(result_expr, ast.Call) else None
+            if helper_site is not None and depth < 2 and len(helper_site.targets) == 1 and helper_site.targets[0].cls == func.cls:
+                helper = helper_site.targets[0]
+                mapping = Program.bind_args(helper, result_expr, skip_self=helper.kind == "instance")  # type: ignore[arg-type]
+                inner_roles = {param: roles[norm(arg)] for param, arg in mapping.items() if arg is not None and norm(arg) in roles}
+                for inner_facts, inner_result, inner_described in verdicts(helper, inner_roles, False, depth + 1):
+                    merged = dict(facts)
+                    conflict = any(k in merged and merged[k] != v for k, v in inner_facts.items())
+                    if conflict:
+                        continue
+                    merged.update(inner_facts)
+                    yield merged, inner_result, described + inner_described
+                continue
+            result = None if result_expr is None else (enum_member(result_expr, "ApplicationResult") or norm(result_expr))
+            yield facts, result, described
+
     seen_paths = 0
-    for path in enumerate_paths(cfg, loop_bound=1):
-        if path[-1][0] != cfg.exit:
-            continue
-        facts: Dict[str, bool] = {}
-        result: Optional[str] = None
-        bound: Dict[str, str] = {}  # local -> the result it holds at this point of the path
-        driver_called = False
-        for nid, label in path:
-            node = cfg.nodes[nid]
-            if node.kind == "cond" and node.ast_node is not None:
-                text = norm(node.ast_node)
-                role = flag_names.get(text)
-                if role:
-                    facts[role] = label == "true"
-                elif "number_of_scan_failures" in text:
-                    facts["triggered"] = label == "true"
-                else:
-                    facts[text] = label == "true"
-            elif node.kind == "stmt" and isinstance(node.ast_node, ast.Assign):
-                stmt = node.ast_node
-                for target in stmt.targets:
-                    if isinstance(target, ast.Name):
-                        value = stmt.value
-                        bound[target.id] = bound.get(value.id, norm(value)) if isinstance(value, ast.Name) else (enum_member(value, "ApplicationResult") or norm(value))
-                if isinstance(stmt.value, ast.Call):
-                    site = site_for(prog, chain, stmt.value)
-                    if site and driver in site.targets:
-                        driver_called = True
-            elif node.kind == "stmt" and isinstance(node.ast_node, ast.Return) and node.ast_node.value is not None:
-                value = node.ast_node.value
-                result = bound.get(value.id, norm(value)) if isinstance(value, ast.Name) else (enum_member(value, "ApplicationResult") or norm(value))
-        if not driver_called:
-            continue
+    for facts, result, described in verdicts(chain, flag_names, True):
         seen_paths += 1
         # unconstrained flags take both values: check the implied verdict for each completion
         for failed in ([facts["failed"]] if "failed" in facts else [True, False]):
@@ -402,7 +435,7 @@ def r18c(ctx: Context) -> None:
                             key, where(chain),
                             f"a run with failed={failed}, fixed={fixed}, triggered={triggered} ends as {result}, expected {expected} "
                             "(an application error must never be masked; fixed outranks triggered)",
-                            [cfg.describe(n) for n, _ in path if cfg.nodes[n].kind in ("cond",)],
+                            described,
                         )
                     else:
                         rule.ok(key, f"-> {result}")
